@@ -27,9 +27,9 @@ RULE = ("C01's bodies with handlers for CancelledError/BaseException that log, a
 def run(ctx):
     K.run_corpus(ctx, PROP, THEOREM)
     if ctx.thorough():
-        n = (9000, 3000, 2500)
+        n = (20000, 8000, 6000)
     else:
-        n = (700, 300, 250)
+        n = (3000, 1200, 1000)
     K.run_stream(ctx, PROP, THEOREM, True, *n)
     if ctx.thorough():
         K.exhaustive(ctx, PROP, THEOREM, True)
